@@ -135,6 +135,9 @@ pub struct Pipe {
     pub write_err_from: Option<usize>,
     /// ... and index < this (None = forever).
     pub write_err_until: Option<usize>,
+    /// Transient read errors: once the reader has consumed at least this many bytes, its next
+    /// read fails once (and the entry is removed); data keeps flowing afterwards.
+    pub read_glitch_at: Vec<usize>,
     /// Absolute stream offsets at which deliveries are cut (Chunk::Cuts).
     pub cuts: Vec<usize>,
     pub delivered: usize,
@@ -285,6 +288,9 @@ pub struct W {
     pub conn_ids: Vec<usize>,
     /// First violation detected by an in-run invariant (class, message).
     pub fail: Option<(String, String)>,
+    /// Which error value the stub transports report when a fault fires (drawn from the tape at
+    /// the first fault of the run; 0 = ConnectionReset for reads, BrokenPipe for writes).
+    pub err_kind: Option<u8>,
     pub watches: Vec<Watch>,
     /// Class reported when a watched region changes although no transport read wrote to it.
     pub watch_class: &'static str,
@@ -356,6 +362,7 @@ impl W {
             read_half_drops: Vec::new(),
             conn_ids: Vec::new(),
             fail: None,
+            err_kind: None,
             watches: Vec::new(),
             watch_class: "watch/changed-without-transport-read",
             watch_moved_class: "watch/reallocated-by-later-transport-read",
@@ -406,6 +413,41 @@ impl W {
 
     pub fn tick(&mut self) {
         self.tick_at("other")
+    }
+
+    /// The error value a stub transport reports for an injected fault. Real transports surface
+    /// many kinds (and zlink has its own `SocketRead` / `SocketWrite` for no-std transports); which
+    /// one this run's faults carry is a per-run draw, made when the first fault fires.
+    pub fn transport_error(&mut self, read: bool) -> zlink_core::Error {
+        use std::io::ErrorKind as K;
+        let k = match self.err_kind {
+            Some(k) => k,
+            None => {
+                let k = match self.tape.draw(3) {
+                    0 | 1 => 0,
+                    _ => 1 + self.tape.draw(7) as u8,
+                };
+                self.err_kind = Some(k);
+                k
+            }
+        };
+        let io = |kind: K| zlink_core::Error::Io(std::io::Error::new(kind, if read { "simulated read error" } else { "simulated write error" }));
+        match k {
+            0 => io(if read { K::ConnectionReset } else { K::BrokenPipe }),
+            1 => {
+                self.stat("fault.error_kind_interrupted");
+                io(K::Interrupted)
+            }
+            2 => io(K::TimedOut),
+            3 => io(K::WouldBlock),
+            4 => io(K::ConnectionAborted),
+            5 => {
+                self.stat("fault.error_kind_zlink_socket_variant");
+                if read { zlink_core::Error::SocketRead } else { zlink_core::Error::SocketWrite }
+            }
+            6 => io(K::UnexpectedEof),
+            _ => io(K::Other),
+        }
     }
 
     /// One step of logical time, attributed to the seam that took it (shown when a run hits its
@@ -922,6 +964,16 @@ impl Future for ReadFut<'_> {
                 }
             }
         }
+        if matches!(w.pipes[p].read_glitch_at.first(), Some(at) if w.pipes[p].total_read >= *at) {
+            // a transient failure: this read reports an error, the byte stream goes on afterwards
+            w.pipes[p].read_glitch_at.remove(0);
+            w.stat("fault.transient_read_error");
+            w.nontrivial = true;
+            w.ev("read.glitch", p as u64, 0);
+            this.done = true;
+            let e = w.transport_error(true);
+            return Poll::Ready(Err(e));
+        }
         if !w.pipes[p].readable.is_empty() {
             if w.cfg.read_pending_despite_data && w.tape.chance(1, 4) {
                 w.stat("buggify.read_pending_despite_data");
@@ -932,6 +984,10 @@ impl Future for ReadFut<'_> {
                 return Poll::Pending;
             }
             let mut avail = w.pipes[p].readable.len().min(window);
+            if let Some(at) = w.pipes[p].read_glitch_at.first() {
+                // reads stop at the offset where the next transient failure is due
+                avail = avail.min(at.saturating_sub(w.pipes[p].total_read)).max(1);
+            }
             if w.pipes[p].read_cap_frame {
                 if let Some(i) = w.pipes[p].readable.iter().take(avail).position(|b| *b == 0) {
                     avail = i + 1;
@@ -971,10 +1027,8 @@ impl Future for ReadFut<'_> {
         if w.pipes[p].broken {
             w.ev("read.err", p as u64, 0);
             this.done = true;
-            return Poll::Ready(Err(zlink_core::Error::Io(std::io::Error::new(
-                std::io::ErrorKind::ConnectionReset,
-                "simulated read error",
-            ))));
+            let e = w.transport_error(true);
+            return Poll::Ready(Err(e));
         }
         if w.pipes[p].eof {
             w.ev("read.eof", p as u64, 0);
@@ -1065,10 +1119,8 @@ impl Future for WriteFut<'_> {
             w.nontrivial = true;
             w.ev("write.err", p as u64, idx as u64);
             this.done = true;
-            return Poll::Ready(Err(zlink_core::Error::Io(std::io::Error::new(
-                std::io::ErrorKind::BrokenPipe,
-                "simulated write error",
-            ))));
+            let e = w.transport_error(false);
+            return Poll::Ready(Err(e));
         }
         if this.stall.is_none() {
             this.stall = Some(if w.cfg.write_stall && w.tape.chance(1, 3) {
